@@ -54,21 +54,31 @@ ASSUME PrintT(<<"OBSDIMS", ToJson([templ |-> Templates, listing |-> Listings, fm
 -----------------------------------------------------------------------------
 (* Code-shaped layer *)
 
-Mapping(sk, tg) == <<KeyOf(sk), ToOf(tg)>>
 Keys(m) == {e[1] : e \in m}
 \* mergeTypedMaps (config.go:252-270): key by key, the destination's value wins
 MergeTyped(src, dst) == dst \cup {e \in src : e[1] \notin Keys(dst)}
 
-WrittenAt(lv) == CASE lv = "root" -> "root" [] lv = "pkg" -> "pkg" [] lv = "iface" -> "i1"
-                   [] lv = "entry" -> "e0" [] lv = "entry2" -> "e1"
+\* what the config file writes into the replace-type map of each config section
+Written(c, lv, sk, tg) ==
+  LET m1 == {<<KeyOf(sk), ToOf(tg)>>}
+      m2 == {<<KeyOf(sk), To2Of(tg)>>}
+  IN CASE lv = "root"    -> IF c = "root" THEN m1 ELSE {}
+       [] lv = "pkg"     -> IF c = "pkg" THEN m1 ELSE {}
+       [] lv = "iface"   -> IF c = "i1" THEN m1 ELSE {}
+       [] lv = "entry"   -> IF c = "e0" THEN m1 ELSE {}
+       [] lv = "entry2"  -> IF c = "e1" THEN m1 ELSE {}
+       [] lv = "entry2x" -> IF c = "e0" THEN m1 ELSE IF c = "e1" THEN m2 ELSE {}
+       [] lv = "entry2y" -> IF c = "e0" THEN m2 ELSE IF c = "e1" THEN m1 ELSE {}
+       [] lv = "iface2x" -> IF c = "i1" THEN m1 ELSE IF c = "i2" THEN m2 ELSE {}
+       [] lv = "iface2y" -> IF c = "i1" THEN m2 ELSE IF c = "i2" THEN m1 ELSE {}
 
 Init ==
   /\ pos \in Positions /\ other \in Others /\ srckind \in SrcKinds /\ target \in Targets
   /\ level \in Levels /\ place \in Placements
   /\ (Wanted # {} => dims \in Wanted)
   /\ pc = "root"
-  /\ cfg = [c \in {"root", "pkg", "i1", "i2", "e0", "e1"} |->
-              IF c = WrittenAt(level) THEN {Mapping(srckind, target)} ELSE {}]
+  /\ (level \in {"iface2x", "iface2y"} => other \in {"ifaceT", "ifaceU"})     \* a config for I2 needs I2
+  /\ cfg = [c \in {"root", "pkg", "i1", "i2", "e0", "e1"} |-> Written(c, level, srckind, target)]
   /\ out = [mocks |-> << >>, req |-> {}, forb |-> {}]
 
 \* RootConfig.Initialize: mergeConfigs(root, pkg)                      config.go:338-360
@@ -84,7 +94,7 @@ Unlisted(c) == cfg.pkg
 MergePkgIntoIfaces ==
   /\ pc = "pkg" /\ pc' = "iface"
   /\ \E p1 \in (IF cfg.i1 = {} /\ level \in {"root", "pkg"} THEN {"listed", "unlisted"} ELSE {"listed"}) :
-     \E p2 \in {"listed", "unlisted"} :
+     \E p2 \in (IF level \in {"iface2x", "iface2y"} THEN {"listed"} ELSE {"listed", "unlisted"}) :
         cfg' = [cfg EXCEPT !.i1 = IF p1 = "listed" THEN Listed("i1") ELSE Unlisted("i1"),
                            !.i2 = IF p2 = "listed" THEN Listed("i2") ELSE Unlisted("i2")]
   /\ UNCHANGED <<pos, other, srckind, target, level, place, out>>
@@ -146,7 +156,8 @@ SameEffectAtEveryLevel == pc = "done" /\ place = Rep(Placements) =>
      LET a == RenderAll(pos, other, srckind, target, level, ch, TRUE)
          b == RenderAll(pos, other, srckind, target, l2, ch, TRUE)
      IN \A i \in DOMAIN a : \A k \in DOMAIN b :
-          (a[i].iface = b[k].iface /\ Covered(MocksOf(other, level)[i], level) /\ Covered(MocksOf(other, l2)[k], l2))
+          (a[i].iface = b[k].iface /\ MockTo(MocksOf(other, level)[i], level, target) # NoTarget
+             /\ MockTo(MocksOf(other, level)[i], level, target) = MockTo(MocksOf(other, l2)[k], l2, target))
             => a[i].methods = b[k].methods
 
 -----------------------------------------------------------------------------
@@ -154,7 +165,7 @@ SameEffectAtEveryLevel == pc = "done" /\ place = Rep(Placements) =>
 CaseRecord ==
   [pos |-> pos, other |-> other, srckind |-> srckind, target |-> target, level |-> level,
    place |-> place,
-   key |-> [p |-> "orig", n |-> KeyNameOf(srckind)], to |-> ToOf(target),
+   key |-> [p |-> "orig", n |-> KeyNameOf(srckind)], to |-> ToOf(target), to2 |-> To2Of(target),
    ifaces |-> Ifaces(pos, other, srckind),
    mocks |-> MocksOf(other, level),
    base |-> TheBase, accept |-> TheAccept, impl |-> out,
